@@ -23,7 +23,7 @@ func (r rng) pick(xs ...int64) int64    { return xs[r.Intn(len(xs))] }
 func (r rng) chance(p float64) bool     { return r.Float64() < p }
 func (r rng) pick2(xs ...string) string { return xs[r.Intn(len(xs))] }
 
-var families = []string{"G1", "G2", "G3", "G4", "G5", "G6", "G7", "G8"}
+var families = []string{"G1", "G2", "G3", "G4", "G5", "G6", "G7", "G8", "G9"}
 
 // Generate builds n scenarios per requested family, all derived from seed.
 func Generate(fams string, seed int64, n int, t *testing.T) []*Scenario {
@@ -52,6 +52,8 @@ func Generate(fams string, seed int64, n int, t *testing.T) []*Scenario {
 			g = genG7
 		case "G8":
 			g = genG8
+		case "G9":
+			g = genG9
 		default:
 			continue
 		}
@@ -91,6 +93,12 @@ func genG1(r rng, n int, t *testing.T) []*Scenario {
 		ninst := int(r.between(1, 4))
 		sc := base(r, ninst, h, ttl)
 		sc.Env = []string{"faultfree"}
+		churn := r.chance(0.3) && ninst >= 3
+		if churn {
+			// hand-over churn: slow (but < H/2) store, leaders shutting down with key deletion again and again
+			q := h/4 - 1
+			sc.Latency = [2]int64{q / 3, q}
+		}
 		if r.chance(0.2) && ninst >= 2 {
 			sc.Instances[ninst-1].Group = "g2"
 		}
@@ -117,6 +125,18 @@ func genG1(r rng, n int, t *testing.T) []*Scenario {
 				at = r.between(0, h)
 			}
 			script := []Action{{After: at, Do: "start"}}
+			if churn {
+				for at < span {
+					d := r.between(h, 4*h)
+					at += d
+					script = append(script, Action{After: d, Do: "stop_ctx", Delete: true, Wait: r.chance(0.3)})
+					d = r.between(1, h)
+					at += d
+					script = append(script, Action{After: d, Do: "start"})
+				}
+				sc.Instances[i].Script = script
+				continue
+			}
 			for at < span && r.chance(0.6) {
 				d := r.between(h/2, span/2)
 				at += d
@@ -589,14 +609,82 @@ func genG8(r rng, n int, t *testing.T) []*Scenario {
 			}
 			wp.Delay = [2]int64{0, r.pick(0, h, 3*h)}
 			sc.Watch[id] = wp
-			if r.chance(0.3) {
+			if r.chance(0.25) {
+				// an outage around the vacancy that then ceases (calls issued during it hang for a long time)
+				from := tv - r.between(0, h)
+				sc.Rules = append(sc.Rules, Rule{Inst: id, FromT: from, ToT: tv + r.between(1, 3*h), Pre: -1, Post: -1, Fault: r.pick2("timeout", "err", "timeout"), Hang: r.pick(h, 30*sec)})
+			} else if r.chance(0.3) {
 				// transient failures of the candidate's reads/creates that cease before the vacancy
 				from := r.between(0, tv-h)
 				sc.Rules = append(sc.Rules, Rule{Inst: id, FromT: from, ToT: from + r.between(1, tv-h-from+1), Pre: -1, Post: -1, Fault: r.pick2("err", "timeout")})
 				sc.HangNs = h
 			}
 		}
-		sc.Until = tv + ttl + 4*h + 2*sec
+		sc.Until = tv + ttl + 8*h + 3*sec
+		sc.Grid = h / 2
+		out = append(out, sc)
+	}
+	return out
+}
+
+// G9: races between a validation call / a blocking health check and the loss of the record:
+// the record is removed, replaced or expires at t; ValidateTokenOrDemote is called around t with a
+// slow read; the health check of the tick around t blocks for a while; re-election may happen
+// before the slow call returns.
+func genG9(r rng, n int, t *testing.T) []*Scenario {
+	var out []*Scenario
+	for k := 0; k < n; k++ {
+		h := r.pick(200*ms, 400*ms, 1000*ms)
+		ttl := h * r.pick(3, 4)
+		sc := base(r, int(r.between(1, 2)), h, ttl)
+		sc.Env = []string{"valrace"}
+		sc.Latency = [2]int64{0, r.pick(0, h/40, h/10)}
+		sc.WatchDelay = [2]int64{0, r.pick(0, h/10)}
+		startAll(sc, r, h)
+		if r.chance(0.5) {
+			sc.Instances[0].ValInt = h * r.pick(1, 2)
+		}
+		span := h * 14
+		sc.Until = span + ttl + 3*sec
+		nrace := int(r.between(1, 3))
+		for j := 0; j < nrace; j++ {
+			tl := r.between(2*h, span)
+			// the loss
+			switch r.Intn(4) {
+			case 0:
+				sc.Actions = append(sc.Actions, Action{At: tl, Do: "ext_del", Key: "g"})
+			case 1:
+				sc.Actions = append(sc.Actions, Action{At: tl, Do: "expire", Key: "g"})
+			case 2:
+				sc.Actions = append(sc.Actions, Action{At: tl, Do: "ext_tpl", Key: "g", Str: r.pick2(`{"id":"{id}","token":"{tok}x"}`, `{"id":"intruder","token":"{tok}"}`, `junk`)})
+			case 3:
+				sc.Actions = append(sc.Actions, Action{At: tl, Do: "ext_del", Key: "g"}, Action{At: tl + r.between(1, h), Do: "ext_del", Key: "g"})
+			}
+			// the validation call, before or after the loss, with a slow read
+			tv := tl + r.pick(-h, -h/4, -1, 0, 1, h/20, h/4)
+			if tv < 1 {
+				tv = 1
+			}
+			slow := r.pick(0, h/8, h/2, h, 2*h)
+			if slow > 0 {
+				sc.Rules = append(sc.Rules, Rule{Inst: "n1", Kind: "get", Site: "validateToken", FromT: tv, ToT: tv + 1, Pre: slow, Post: r.pick(0, slow)})
+			}
+			sc.Actions = append(sc.Actions, Action{At: tv, Do: r.pick2("validate_or_demote", "validate_or_demote", "validate"), I: "n1", CtxNs: r.pick(0, 0, 4*h)})
+		}
+		if r.chance(0.5) {
+			// a health checker whose checks sometimes block (ignoring their context) across the loss
+			hp := &HealthPlan{Default: true}
+			for j := 0; j < 40; j++ {
+				hp.Results = append(hp.Results, r.chance(0.9))
+				d := int64(0)
+				if r.chance(0.35) {
+					d = r.pick(h/4, h/2, h, 2*h)
+				}
+				hp.DurNs = append(hp.DurNs, d)
+			}
+			sc.Instances[0].Health = hp
+			sc.Instances[0].MaxHealth = int(r.between(2, 5))
+		}
 		sc.Grid = h / 2
 		out = append(out, sc)
 	}
